@@ -1,6 +1,7 @@
 package basestore
 
 import (
+	"berty.tech/go-orbit-db/verifhook"
 	"context"
 	"encoding/binary"
 	"encoding/json"
@@ -282,11 +283,13 @@ func (b *BaseStore) InitBaseStore(ipfs coreiface.CoreAPI, identity *identityprov
 
 		var e interface{}
 		for {
+			verifhook.At("mainloop.idle", b)
 			select {
 			case e = <-sub.Out():
 			case <-ctx.Done():
 				return
 			}
+			verifhook.At("mainloop.recv", b, e)
 
 			switch evt := e.(type) {
 			case replicator.EventLoadAdded:
@@ -373,6 +376,7 @@ func (b *BaseStore) Close() error {
 		return nil
 	}
 
+	verifhook.At("close.begin", b)
 	b.cancel()
 
 	b.closeFunc()
@@ -550,6 +554,7 @@ func (b *BaseStore) Load(ctx context.Context, amount int) error {
 			defer wg.Done()
 
 			oplog := b.OpLog()
+			verifhook.At("load.head.begin", b, h)
 
 			span.AddEvent("store-head-loading")
 
@@ -658,6 +663,7 @@ func (b *BaseStore) Sync(ctx context.Context, heads []ipfslog.Entry) error {
 		span.AddEvent("store-sync-head-verified")
 	}
 
+	verifhook.At("sync.spawn", b, len(heads))
 	go b.Replicator().Load(ctx, heads)
 
 	return nil
@@ -841,6 +847,7 @@ func (b *BaseStore) AddOperation(ctx context.Context, op operation.Operation, on
 		return nil, fmt.Errorf("unable to append data on log: %w", err)
 	}
 
+	verifhook.At("write.appended", b, e)
 	b.recalculateReplicationStatus(e.GetClock().GetTime())
 
 	marshaledEntry, err := json.Marshal([]ipfslog.Entry{e})
@@ -852,14 +859,17 @@ func (b *BaseStore) AddOperation(ctx context.Context, op operation.Operation, on
 	if err != nil {
 		return nil, fmt.Errorf("unable to add data to cache: %w", err)
 	}
+	verifhook.At("write.persisted", b, e)
 
 	if err := b.updateIndex(ctx); err != nil {
 		return nil, fmt.Errorf("unable to update index: %w", err)
 	}
 
+	verifhook.At("write.indexed", b, e)
 	if err := b.emitters.evtWrite.Emit(stores.NewEventWrite(b.Address(), e, oplog.Heads().Slice())); err != nil {
 		b.logger.Warn("unable to emit event write", zap.Error(err))
 	}
+	verifhook.At("write.emitted", b, e)
 
 	if onProgressCallback != nil {
 		onProgressCallback <- e
@@ -947,11 +957,14 @@ func (b *BaseStore) replicationLoadComplete(ctx context.Context, logs []ipfslog.
 	defer b.muJoining.Unlock()
 
 	oplog := b.OpLog()
+	verifhook.At("join.begin", b, len(logs))
+	defer verifhook.At("join.end", b)
 
 	b.Logger().Debug("replication load complete")
 	entries := []ipfslog.Entry{}
 	for _, log := range logs {
 		_, err := oplog.Join(log, -1)
+		verifhook.At("join.log", b, log, err)
 		if err != nil {
 			b.Logger().Error("unable to join logs", zap.Error(err))
 			return
@@ -966,6 +979,7 @@ func (b *BaseStore) replicationLoadComplete(ctx context.Context, logs []ipfslog.
 		return
 	}
 
+	verifhook.At("join.indexed", b)
 	// only store heads that has been verified and merges
 	heads := oplog.Heads()
 
@@ -981,6 +995,7 @@ func (b *BaseStore) replicationLoadComplete(ctx context.Context, logs []ipfslog.
 		return
 	}
 
+	verifhook.At("join.persisted", b, heads.Len())
 	if oplog.Len() > b.replicationStatus.GetProgress() {
 		b.recalculateReplicationStatus(oplog.Len())
 	}
@@ -988,6 +1003,7 @@ func (b *BaseStore) replicationLoadComplete(ctx context.Context, logs []ipfslog.
 	b.Logger().Debug(fmt.Sprintf("Saved heads %d", heads.Len()))
 
 	// logger.debug(`<replicated>`)
+	verifhook.At("join.emit", b, len(entries))
 	if err := b.emitters.evtReplicated.Emit(stores.NewEventReplicated(b.Address(), entries, len(logs))); err != nil {
 		b.Logger().Warn("unable to emit event replicated", zap.Error(err))
 	}
@@ -1032,7 +1048,9 @@ func (b *BaseStore) storeListener(topic iface.PubSubTopic) error {
 			}
 
 			evt := e.(stores.EventWrite)
+			verifhook.At("announce.begin", b, evt)
 			go func() {
+				defer verifhook.At("announce.end", b)
 				// @TODO(gfanton): HandleEventWrite trigger a
 				// publish that is a blocking call if no peers
 				// is found, add a deadline to avoid to be stuck
@@ -1123,6 +1141,7 @@ func (b *BaseStore) pubSubChanListener(topic iface.PubSubTopic) error {
 				}
 
 				// handle new peers
+				verifhook.At("peerjoin.spawn", b, evt.Peer)
 				go b.onNewPeerJoined(evt.Peer)
 				b.logger.Debug(fmt.Sprintf("peer %s joined from %s self is %s", evt.Peer.String(), b.address, b.peerID))
 
@@ -1138,16 +1157,19 @@ func (b *BaseStore) pubSubChanListener(topic iface.PubSubTopic) error {
 	go func() {
 		for evt := range chMessages {
 			b.logger.Debug("Got pub sub message")
+			verifhook.At("listener.msg.recv", b)
 
 			msg := &iface.MessageExchangeHeads{}
 			err := b.messageMarshaler.Unmarshal(evt.Content, msg)
 			if err != nil {
 				b.logger.Error("unable to unmarshal head entries", zap.Error(err))
+				verifhook.At("listener.msg.done", b)
 				continue
 			}
 
 			if len(msg.Heads) == 0 {
 				b.logger.Debug(fmt.Sprintf("Nothing to synchronize for %s:", b.address))
+				verifhook.At("listener.msg.done", b)
 				continue
 			}
 
@@ -1161,6 +1183,7 @@ func (b *BaseStore) pubSubChanListener(topic iface.PubSubTopic) error {
 			if err := b.Sync(b.ctx, entries); err != nil {
 				b.logger.Debug(fmt.Sprintf("Error while syncing heads for %s:", b.address))
 			}
+			verifhook.At("listener.msg.done", b)
 		}
 	}()
 
@@ -1168,6 +1191,7 @@ func (b *BaseStore) pubSubChanListener(topic iface.PubSubTopic) error {
 }
 
 func (b *BaseStore) onNewPeerJoined(p peer.ID) {
+	defer verifhook.At("peerjoin.end", b, p)
 	b.logger.Debug(fmt.Sprintf("%s: New peer '%s' connected to %s", b.peerID, p, b.id))
 
 	if err := b.exchangeHeads(p); err != nil {
